@@ -335,6 +335,10 @@ func (en *Engine) VerifyFunc(fc *FuncContract) (res *FuncResult) {
 	}
 	fr.entry = st.clone()
 	fr.entryScope = sc
+	func() {
+		defer func() { recover() }()
+		top.replay = fr.buildReplayInfo(fc)
+	}()
 	rst, vals := fr.execBody(st)
 	if rst != nil {
 		// postconditions
@@ -357,9 +361,12 @@ func (en *Engine) VerifyFunc(fc *FuncContract) (res *FuncResult) {
 				}
 				ce := *e
 				ce.Text = ExprString(p)
+				ce.E = p
 				fr.oblige(rst, "ensures", name, g, &ce, fn.Pos())
-				// later clauses may use earlier ones as lemmas (each is proved on its own)
-				fr.assume(rst, g)
+				// clauses labelled ...lemma are available to the later clauses (each is proved on its own)
+				if strings.HasSuffix(e.Label, "lemma") {
+					fr.assume(rst, g)
+				}
 			}
 		}
 		fr.oblige(rst, "cover", "return", False, nil, fn.Pos())
